@@ -210,6 +210,11 @@ def run_body(mod, sp, x, decl):
         mod.put_variable(ins['col'], ins['name'], mod.get_variable(ins['col'], ins['name']) + 1.0)
       else:
         mod.put_variable(ins['col'], ins['name'], jnp.ones((), jnp.float32))
+    elif k == 'libconv':
+      # a library layer with its documented `mask=` option (host-side numpy mask); D spatial positions, one feature
+      CTL.event('libconv')
+      conv = nn.Conv(features=2, kernel_size=(1,), use_bias=False, mask=np.array([[[1.0, 0.0]]], np.float32), kernel_init=int_init('bias'), name=ins['name'])
+      x = x + conv(x.reshape(x.shape + (1,))).sum(-1)
     elif k == 'late':
       # a variable in a collection that only comes into being in a LATER call of the same bound module
       if CTL.phase and mod.is_mutable_collection(ins['col']):
@@ -354,7 +359,7 @@ def cols_touched(spec, out=None, perturb=True):
       out.add(ins['col'])
     if ins['i'] == 'perturb' and perturb:
       out.add('perturbations')
-    if ins['i'] == 'param':
+    if ins['i'] in ('param', 'libconv'):
       out.add('params')
     for key in ('mod', 'then', 'else'):
       if isinstance(ins.get(key), dict):
